@@ -54,6 +54,8 @@ class Circ:
         self.excluded: str | None = None
         self.born = -1
         self.rel_ok = False  # I3: relation held at birth
+        self.rederive_ok = False  # I2': agreed with a new derivation at birth
+        self.own_edited = False  # its own constants were overwritten by an edited state dict
         self.mutated_after_birth = False
         self.domain: tuple[str, int] = ("discrete", 2)
         self.num_vars = 0
@@ -444,6 +446,48 @@ class WorldA:
             clone, semiring=self.semiring, fold=self.fold, optimize=self.optimize
         )
 
+    def _rederived_reference(self, c: Circ) -> Any:
+        """R1': the operator of ``c`` applied afresh to *dereferenced clones of its operands*
+        (every tensor / reference of the operand replaced by a constant holding its current
+        value), compiled with the same flags in a throw-away context.  What a derived circuit
+        computes must be what deriving it now from its operands would compute - whatever kind of
+        tensor of the operand was updated since.  Operator defects are on both sides and cancel."""
+        from cirkit.pipeline import PipelineContext
+
+        clones: dict[str, Any] = {}
+        for sname in c.srcs:
+            sc_ = self.get(sname)
+            if sc_ is None:
+                raise HarnessError("source of a live derived circuit is gone")
+            if sname not in clones:
+                clones[sname] = oracles.deref_clone(sc_.sc, self.theta)
+        ctx2 = PipelineContext(backend="torch", semiring=self.semiring, fold=self.fold,
+                               optimize=self.optimize)
+        dsc = self._rederive(c, {}, scs=[clones[sn] for sn in c.srcs], ctx=ctx2)
+        cc = ctx2.compile(dsc)
+        oracles.init_submodule_tensors(cc)
+        return cc
+
+    def check_rederived(self, circs: list[Circ], where: str) -> None:
+        """I2' (freshness against a new derivation), for derived circuits whose own constants were
+        not edited and for which the two agreed at birth."""
+        if "I2" not in self.checks:
+            return
+        for c in circs:
+            if c.kind != "derived" or not c.rederive_ok or c.own_edited:
+                continue
+            try:
+                outs = self.eval_all(c)
+                ref = self._rederived_reference(c)
+                refs = [oracles.evaluate(ref, X) for X in self.probes_for(c)]
+            except (HarnessError, Violation):
+                raise
+            except Exception as e:
+                self.tr.count(f"rederive:no-verdict:{type(e).__name__}")
+                continue
+            for a, b in zip(outs, refs):
+                self._cmp("I2r", c, a, b, where + " (against a new derivation from its operands)")
+
     def _make_optimizer(self, c: Circ) -> None:
         spec = c.opt_spec or {"kind": "sgd", "lr": 0.05}
         ps = self.learnable_tensors(c)
@@ -578,6 +622,20 @@ class WorldA:
         if c.alive:
             c.rel_ok = self._relation_holds(c, rel=self.REL_BIRTH, nontrivial=True) is True
             self.tr.count("rel:tracked" if c.rel_ok else "rel:untracked")
+            if "I2" in self.checks:
+                try:
+                    ref = self._rederived_reference(c)
+                    ok = True
+                    for X in self.probes_for(c):
+                        v, _ = compare_outputs(oracles.evaluate(c.cc, X), oracles.evaluate(ref, X),
+                                               self.semiring, rel=self.tol_rel, logabs=self.tol_log)
+                        ok = ok and v in ("ok", "undefined")
+                    c.rederive_ok = ok
+                except (HarnessError, Violation):
+                    raise
+                except Exception:
+                    c.rederive_ok = False
+                self.tr.count("rederive:tracked" if c.rederive_ok else "rederive:untracked")
         return info
 
     def _mutated(self, base: Circ) -> None:
@@ -902,11 +960,22 @@ class WorldA:
                 edited += 1
         if not edited:
             return {"status": "noop"}
+
+        def own_digest(x: Circ) -> str:
+            return "|".join(tdigest(self.theta(sp)) for sp in x.tparams)
+
+        # the dictionary of a derived circuit also lists tensors of the circuits it was derived
+        # from (it reaches them through pointers): whose constants were edited is found by value
+        before_own = {x.name: own_digest(x) for x in self.alive("derived")}
         try:
             c.cc.load_state_dict(sd, strict=True)
         except Exception as e:
             self.tr.count(f"load-edited:refused:{type(e).__name__}")
             return {"status": "refused"}
+        for x in self.alive("derived"):
+            if own_digest(x) != before_own[x.name]:
+                x.own_edited = True
+                x.rel_ok = False
         self.tr.count("load-edited:tensors", edited)
         for b in c.bases:
             self._mutated(self.circs[b])
@@ -914,6 +983,7 @@ class WorldA:
             if d is not c and (c.name in d.srcs or set(c.bases) & set(d.bases)):
                 d.mutated_after_birth = True
         if c.kind == "derived":
+            c.own_edited = True
             # the derived circuit's own constants changed: its relation to its operands is a
             # different one now (e.g. another observation) - stop tracking the old one
             c.rel_ok = False
@@ -979,6 +1049,7 @@ class WorldA:
             c.recipe, c.spec, c.bases, c.srcs = oc.recipe, oc.spec, oc.bases, oc.srcs
             c.domain, c.num_vars, c.opt_spec, c.digest = oc.domain, oc.num_vars, oc.opt_spec, oc.digest
             c.rel_ok = oc.rel_ok
+            c.rederive_ok, c.own_edited = oc.rederive_ok, False
             use_rebuild = mode == "rebuild"
             try:
                 if oc.kind == "base":
@@ -1024,15 +1095,17 @@ class WorldA:
         self.tr.count(f"restart:{mode}")
         return {"status": status, "restart": True}
 
-    def _rederive(self, oc: Circ, rebuilt: dict[str, Circ]) -> Any:
+    def _rederive(self, oc: Circ, rebuilt: dict[str, Circ], *, scs: list[Any] | None = None,
+                  ctx: Any = None) -> Any:
         import cirkit.symbolic.functional as SF
         from cirkit.utils.scope import Scope
 
         spec = oc.spec
         assert spec is not None
-        scs = [rebuilt[s].sc for s in oc.srcs]
+        if scs is None:
+            scs = [rebuilt[s].sc for s in oc.srcs]
         opr = spec["opr"]
-        with self.ctx:
+        with (self.ctx if ctx is None else ctx):
             pre = spec.get("pre")
             if pre == "multiply":
                 scs = [SF.multiply(scs[0], scs[1])]
@@ -1361,6 +1434,9 @@ class WorldA:
                 subset = live  # a load / restart is where durability shows: look at everything
             self.check_learnables(subset)
             self.check_fresh(subset, where=f"after {op['op']} at step {self.tr.step}")
+            if info.get("loaded") is not None or op["op"] in ("load_edited", "reset", "restart") \
+                    or self.check_rng.random() < 0.3:
+                self.check_rederived(subset, where=f"after {op['op']} at step {self.tr.step}")
             self.check_relations(subset)
             self.check_memo(subset)
         for h in self.hooks:
@@ -1370,6 +1446,7 @@ class WorldA:
         live = self.alive()
         self.check_learnables(live)
         self.check_fresh(live, where="at the end of the run")
+        self.check_rederived(live, where="at the end of the run")
         self.check_relations(live)
         self.check_memo(live)
         for h in self.hooks:
